@@ -28,6 +28,8 @@ func main() {
 	case "worker":
 		heap, _ := strconv.Atoi(os.Args[3])
 		os.Exit(fw.WorkerMain(os.Args[2], heap))
+	case "oneshot":
+		os.Exit(fw.OneShotMain(os.Args[2], os.Args[3], os.Args[4]))
 	case "run":
 		id, tier := os.Args[2], os.Args[3]
 		p, ok := registry[id]
